@@ -7,7 +7,11 @@ const SINGLE: u8 = 20; // single-action infoset, action 7
 
 fn tables() -> ([PlayerInfosetData<u8, u8>; 1], [(u8, u8); 1]) {
     (
-        [PlayerInfosetData { infoset: MULTI, actions: Box::new([0u8, 1]) as Box<[u8]>, prev_infoset: None }],
+        [PlayerInfosetData {
+            infoset: MULTI,
+            actions: Box::new([0u8, 1]) as Box<[u8]>,
+            prev_infoset: None,
+        }],
         [(SINGLE, 7)],
     )
 }
@@ -55,7 +59,12 @@ fn any_entry() -> Entry {
             _ => f64::NAN,
         }
     };
-    Entry { label, n, acts: [pick(), pick()], w: [wt(), wt()] }
+    Entry {
+        label,
+        n,
+        acts: [pick(), pick()],
+        w: [wt(), wt()],
+    }
 }
 
 fn valid_w(w: f64) -> bool {
@@ -72,7 +81,13 @@ struct Verdict {
 }
 
 fn contract(es: &[Entry]) -> Verdict {
-    let mut v = Verdict { bad_infoset: false, bad_action: false, bad_prob: false, uninit: false, dense: [0.0, 0.0] };
+    let mut v = Verdict {
+        bad_infoset: false,
+        bad_action: false,
+        bad_prob: false,
+        uninit: false,
+        dense: [0.0, 0.0],
+    };
     let mut single_seen = false;
     for e in es {
         if e.label != MULTI && e.label != SINGLE {
@@ -80,7 +95,11 @@ fn contract(es: &[Entry]) -> Verdict {
             continue;
         }
         for j in 0..e.n {
-            let legal = if e.label == MULTI { e.acts[j] <= 1 } else { e.acts[j] == 7 };
+            let legal = if e.label == MULTI {
+                e.acts[j] <= 1
+            } else {
+                e.acts[j] == 7
+            };
             if !legal {
                 v.bad_action = true;
             }
@@ -105,7 +124,8 @@ fn contract(es: &[Entry]) -> Verdict {
 fn run_slow(es: &[Entry]) -> Result<Box<[f64]>, StratError> {
     let (infos, singles) = tables();
     let r = Game::<u8, u8>::strat_into_box_slow(
-        es.iter().map(|e| (e.label, (0..e.n).map(move |j| (e.acts[j], e.w[j])))),
+        es.iter()
+            .map(|e| (e.label, (0..e.n).map(move |j| (e.acts[j], e.w[j])))),
         &infos[..],
         &singles[..],
     );
@@ -116,7 +136,8 @@ fn run_slow(es: &[Entry]) -> Result<Box<[f64]>, StratError> {
 fn run_hash(es: &[Entry]) -> Result<Box<[f64]>, StratError> {
     let (infos, singles) = tables();
     let r = Game::<u8, u8>::strat_into_box(
-        es.iter().map(|e| (e.label, (0..e.n).map(move |j| (e.acts[j], e.w[j])))),
+        es.iter()
+            .map(|e| (e.label, (0..e.n).map(move |j| (e.acts[j], e.w[j])))),
         &infos[..],
         &singles[..],
     );
@@ -139,7 +160,10 @@ fn check_against_contract(r: &Result<Box<[f64]>, StratError>, v: &Verdict, what:
     let any_violation = v.bad_infoset || v.bad_action || v.bad_prob || v.uninit;
     match r {
         Ok(d) => {
-            assert!(!any_violation, "C14 accept: import succeeded although a documented rule is violated");
+            assert!(
+                !any_violation,
+                "C14 accept: import succeeded although a documented rule is violated"
+            );
             assert!(d.len() == 2, "C14 value: wrong layout");
             let total = v.dense[0] + v.dense[1];
             if total < f64::INFINITY {
@@ -148,14 +172,29 @@ fn check_against_contract(r: &Result<Box<[f64]>, StratError>, v: &Verdict, what:
                     assert!(d[i] == want || (d[i] - want <= 1e-12 && want - d[i] <= 1e-12), "C14 value: imported probability is not weight / infoset total (last entry wins, unspecified = 0)");
                 }
             }
-            assert!(!d[0].is_nan() && !d[1].is_nan() && d[0] >= 0.0 && d[1] >= 0.0 && (d[0] > 0.0 || d[1] > 0.0),
-                "C14 profile: accepted import is not a distribution (no positive entry or NaN)");
+            assert!(
+                !d[0].is_nan()
+                    && !d[1].is_nan()
+                    && d[0] >= 0.0
+                    && d[1] >= 0.0
+                    && (d[0] > 0.0 || d[1] > 0.0),
+                "C14 profile: accepted import is not a distribution (no positive entry or NaN)"
+            );
         }
         Err(e) => {
-            assert!(any_violation, "C14 reject: import failed although every documented rule holds");
+            assert!(
+                any_violation,
+                "C14 reject: import failed although every documented rule holds"
+            );
             let k = kind(e);
-            let named = (k == 0 && v.bad_infoset) || (k == 1 && v.bad_action) || (k == 2 && v.bad_prob) || (k == 3 && v.uninit);
-            assert!(named, "C14 error-kind: the error returned does not name a rule the input violates");
+            let named = (k == 0 && v.bad_infoset)
+                || (k == 1 && v.bad_action)
+                || (k == 2 && v.bad_prob)
+                || (k == 3 && v.uninit);
+            assert!(
+                named,
+                "C14 error-kind: the error returned does not name a rule the input violates"
+            );
         }
     }
     let _ = what;
@@ -169,9 +208,21 @@ fn c14_import_slow_contract() {
     kani::assume(es[1].n <= 1);
     let v = contract(&es);
     let r = run_slow(&es);
-    kani::cover!(r.is_ok() && es[0].label == SINGLE && es[1].label == MULTI, "valid import, single-action infoset first");
-    kani::cover!(matches!(r, Err(StratError::UninitializedInfoset)) && !v.bad_infoset && !v.bad_action && !v.bad_prob, "only an uncovered infoset");
-    kani::cover!(es[0].label == MULTI && es[1].label == MULTI && es[0].n == 2 && es[1].n == 1, "infoset listed twice");
+    kani::cover!(
+        r.is_ok() && es[0].label == SINGLE && es[1].label == MULTI,
+        "valid import, single-action infoset first"
+    );
+    kani::cover!(
+        matches!(r, Err(StratError::UninitializedInfoset))
+            && !v.bad_infoset
+            && !v.bad_action
+            && !v.bad_prob,
+        "only an uncovered infoset"
+    );
+    kani::cover!(
+        es[0].label == MULTI && es[1].label == MULTI && es[0].n == 2 && es[1].n == 1,
+        "infoset listed twice"
+    );
     check_against_contract(&r, &v, "slow");
     core::mem::forget(r);
 }
@@ -185,7 +236,10 @@ fn c14_import_hash_contract() {
     let v = contract(&es);
     let r = run_hash(&es);
     kani::cover!(r.is_ok(), "valid import");
-    kani::cover!(matches!(r, Err(StratError::InvalidAction)), "illegal action");
+    kani::cover!(
+        matches!(r, Err(StratError::InvalidAction)),
+        "illegal action"
+    );
     check_against_contract(&r, &v, "hash");
     core::mem::forget(r);
 }
@@ -199,16 +253,28 @@ fn c14_import_paths_agree() {
     let a = run_slow(&es);
     let b = run_hash(&es);
     kani::cover!(a.is_ok(), "both accept");
-    kani::cover!(matches!(a, Err(StratError::InvalidProbability)), "invalid weight");
+    kani::cover!(
+        matches!(a, Err(StratError::InvalidProbability)),
+        "invalid weight"
+    );
     match (&a, &b) {
         (Ok(x), Ok(y)) => {
             assert!(x.len() == y.len(), "C14 agree: layouts differ");
             for i in 0..2 {
-                assert!(x[i].to_bits() == y[i].to_bits(), "C14 agree: the two import functions return different probabilities");
+                assert!(
+                    x[i].to_bits() == y[i].to_bits(),
+                    "C14 agree: the two import functions return different probabilities"
+                );
             }
         }
-        (Err(x), Err(y)) => assert!(kind(x) == kind(y), "C14 agree: the two import functions return different error kinds"),
-        _ => assert!(false, "C14 agree: one import function accepts what the other rejects"),
+        (Err(x), Err(y)) => assert!(
+            kind(x) == kind(y),
+            "C14 agree: the two import functions return different error kinds"
+        ),
+        _ => assert!(
+            false,
+            "C14 agree: one import function accepts what the other rejects"
+        ),
     }
     core::mem::forget(a);
     core::mem::forget(b);
@@ -220,8 +286,16 @@ fn c14_import_paths_agree() {
 #[kani::unwind(3)]
 fn c14_import_two_infosets_layout() {
     let infos = [
-        PlayerInfosetData { infoset: 10u8, actions: Box::new([0u8, 1]) as Box<[u8]>, prev_infoset: None },
-        PlayerInfosetData { infoset: 11u8, actions: Box::new([0u8, 1]) as Box<[u8]>, prev_infoset: Some(0) },
+        PlayerInfosetData {
+            infoset: 10u8,
+            actions: Box::new([0u8, 1]) as Box<[u8]>,
+            prev_infoset: None,
+        },
+        PlayerInfosetData {
+            infoset: 11u8,
+            actions: Box::new([0u8, 1]) as Box<[u8]>,
+            prev_infoset: Some(0),
+        },
     ];
     let singles: [(u8, u8); 0] = [];
     let act = |k: bool| if k { 1u8 } else { 0u8 };
@@ -229,8 +303,18 @@ fn c14_import_two_infosets_layout() {
     let swap: bool = kani::any();
     let (l0, l1) = if swap { (11u8, 10u8) } else { (10u8, 11u8) };
     let es = [(l0, [(act(a0), 1.0f64)]), (l1, [(act(a1), 3.0f64)])];
-    let slow = Game::<u8, u8>::strat_into_box_slow(es.iter().map(|(l, ps)| (*l, ps.iter().map(|(a, w)| (*a, *w)))), &infos[..], &singles[..]);
-    let hash = Game::<u8, u8>::strat_into_box(es.iter().map(|(l, ps)| (*l, ps.iter().map(|(a, w)| (*a, *w)))), &infos[..], &singles[..]);
+    let slow = Game::<u8, u8>::strat_into_box_slow(
+        es.iter()
+            .map(|(l, ps)| (*l, ps.iter().map(|(a, w)| (*a, *w)))),
+        &infos[..],
+        &singles[..],
+    );
+    let hash = Game::<u8, u8>::strat_into_box(
+        es.iter()
+            .map(|(l, ps)| (*l, ps.iter().map(|(a, w)| (*a, *w)))),
+        &infos[..],
+        &singles[..],
+    );
     kani::cover!(swap && a0 && !a1, "second infoset listed first");
     for r in [&slow, &hash] {
         match r {
@@ -240,7 +324,10 @@ fn c14_import_two_infosets_layout() {
                     ($i:expr) => {
                         let (lab, ac) = (10 + ($i / 2) as u8, ($i % 2) as u8);
                         let hit = (l0 == lab && act(a0) == ac) || (l1 == lab && act(a1) == ac);
-                        assert!(d[$i] == if hit { 1.0 } else { 0.0 }, "C14 value: a weight landed in the slot of another infoset or action");
+                        assert!(
+                            d[$i] == if hit { 1.0 } else { 0.0 },
+                            "C14 value: a weight landed in the slot of another infoset or action"
+                        );
                     };
                 }
                 slot!(0);
